@@ -320,9 +320,28 @@ def c20():
     ]
 
 
+def c18():
+    return [
+        R("c18-upper-key", "C18", IVP, "            \"rk45\": rk45_adaptive,\n            \"euler\": fwd_euler_ivp,\n        }\n        solver", "            \"RK45\": rk45_adaptive,\n            \"euler\": fwd_euler_ivp,\n        }\n        solver", "C18-L"),
+        R("c18-bypass-get-method", "C18", QUAD, "            method_fcn = get_method(\"quad\", methods, method)", "            method_fcn = methods[method] if isinstance(method, str) else method", ["C18-G", "C18-A"]),
+        R("c18-silent-default", "C18", MISC, "        else:\n            raise RuntimeError(\"Unknown %s method: %s\" % (algname, method))", "        else:\n            return next(iter(methods.values()))", "C18-R"),
+        R("c18-no-lower", "C18", MISC, "        methodname = method.lower()", "        methodname = method", "C18-R"),
+        R("c18-under-enable-grad", "C18", RF, "        with fwd_fcn.useobjparams(objparams):\n\n            method = config.pop(\"method\")", "        with fwd_fcn.useobjparams(objparams), torch.enable_grad():\n\n            method = config.pop(\"method\")", "C18-N"),
+        R("c18-options-not-splatted", "C18", "xitorch/integrate/mcquad.py", "            xsamples, wsamples = method_fcn(log_pfcn, x0, pparams, **config)", "            xsamples, wsamples = method_fcn(log_pfcn, x0, pparams, config)", "C18-A"),
+        R("c18-method-left-in-options", "C18", IVP, "        method = config.pop(\"method\")\n        methods = {\n            \"rk4\": rk4_ivp,", "        method = config[\"method\"]\n        methods = {\n            \"rk4\": rk4_ivp,", "C18-A"),
+        R("c18-documented-not-dispatchable", "C18", S_PUB, "                    \"gmres\": gmres,\n                }\n                method_fcn", "                }\n                method_fcn", "C18-L"),
+        R("c18-merge-order", "C18", IVP, "        ctx.bck_config = set_default_option(config, bck_options)", "        ctx.bck_config = set_default_option(bck_options, config)", "C18-O"),
+        R("c18-pop-before-merge", "C18", QUAD, "            config = fwd_options\n            ctx.bck_config = set_default_option(config, bck_options)\n", "            config = fwd_options\n            method = config.pop(\"method\")\n            ctx.bck_config = set_default_option(config, bck_options)\n", "C18-O",
+          note="(together with the later pop this raises KeyError; the mutant below is the compiling variant)", expect="fire"),
+        R("c18-symeig-compare-raw", "C18", SYM, "    # method names are case-insensitive\n    if isinstance(method, str):\n        method = method.lower()\n\n    if method == \"exacteig\":", "    if method == \"exacteig\":", "C18-C"),
+        R("c18-equil-membership-raw", "C18", RF, "    if isinstance(method, str):  # method names are case-insensitive\n        method = method.lower()\n    fwd_options[\"method\"] = method\n    fwd_fcn", "    fwd_options[\"method\"] = method\n    fwd_fcn", "C18-C"),
+        R("c18-positional-swapped", "C18", "xitorch/linalg/solve.py", "                x = method_fcn(A, B, E, M, **config)", "                x = method_fcn(A, B, M, E, **config)", "C18-A"),
+    ]
+
+
 def all_mutants():
     ms = []
-    for f in (defects_back, c01, c02, c03, c04, c08, c13, c16, c10, c11, c19, c20):
+    for f in (defects_back, c01, c02, c03, c04, c08, c13, c16, c10, c11, c19, c20, c18):
         ms += f()
     import importlib
     try:
